@@ -487,6 +487,11 @@ class Run:
         o = self.new_obj()
         name, a = self.heap.carr(t, "len")
         self.heap.set(name, z3.Store(a, o, 0))
+        if isinstance(t, T.List):
+            # an empty list has no members (definition of the membership predicate at length 0)
+            es = T.sort(t.elem)
+            e = z3.Const(H.fresh_name("nl_e"), es)
+            self.assume(z3.ForAll([e], z3.Not(H.mem_fn(es)(self.heap.l_elems(t, o), 0, e))))
         if isinstance(t, (T.Dict, T.Set)):
             ks = T.sort(t.k if isinstance(t, T.Dict) else t.elem)
             name, a = self.heap.carr(t, "dom")
